@@ -4,6 +4,7 @@ import (
 	"bytes"
 	"encoding/binary"
 	"encoding/hex"
+	"encoding/json"
 	"fmt"
 	"io"
 	"math"
@@ -136,6 +137,9 @@ func TestProp(t *testing.T) {
 		r.Require("client_built", int64(nClient/2))
 		r.Require("client_tickets_equal", int64(nClient))
 		r.Require("client_absent_spn_refused", int64(nClient))
+		r.Require("client_repeated_server_pair_intact", int64(nClient/20))
+		r.Require("files_parsed_input_buffer_overwritten_unchanged", int64(nFiles/2))
+		r.Require("credentials_with_negative_keytype", int64(nFiles/50))
 		if vh.Thorough() {
 			r.Require("client_tgt_and_session_key_equal", int64(nClient/20))
 		} else {
@@ -244,7 +248,9 @@ func genTktSpec(rnd *vh.Rand, server ccache.Principal) tktSpec {
 
 func genCredential(rnd *vh.Rand, client, server ccache.Principal) ccache.Credential {
 	c := ccache.Credential{Client: client, Server: server}
-	c.KeyType = vh.Pick(rnd, uint16(0), 1, 3, 16, 17, 18, 18, 19, 20, 23, 24, 255, 256, 0x7fff, uint16(rnd.U64())&0x7fff)
+	c.KeyType = vh.Pick(rnd, uint16(0), 1, 3, 16, 17, 18, 18, 19, 20, 23, 24, 255, 256, 0x7fff, uint16(rnd.U64())&0x7fff,
+		// the key type is a signed 16-bit field (MIT: "enctypes can be negative, so sign-extend the 16-bit result"): -133, -135, -138, -1, -32768
+		uint16(0xff7b), 0xff79, 0xff76, 0xffff, 0x8000, uint16(rnd.U64())|0x8000)
 	c.Key = rnd.Bytes(vh.Pick(rnd, 0, 8, 16, 24, 32, 64, rnd.Intn(65), rnd.Intn(65)))
 	c.AuthTime, c.StartTime, c.EndTime, c.RenewTill = genTime(rnd), genTime(rnd), genTime(rnd), genTime(rnd)
 	c.IsSKey = rnd.Intn(4) == 0
@@ -461,8 +467,11 @@ func (c *ctx) compareParsed(cc *credentials.CCache) bool {
 		if !c.principal(fmt.Sprintf("credential %d server", i), "C15|cred|server", g.Server.Realm, g.Server.PrincipalName, w.Server) {
 			names = false
 		}
-		if g.Key.KeyType != int32(w.KeyType) {
-			c.violate("C15|cred|keytype", fmt.Sprintf("credential %d key type %d, written %d", i, g.Key.KeyType, w.KeyType), nil)
+		if int16(w.KeyType) < 0 {
+			c.r.Inc("credentials_with_negative_keytype")
+		}
+		if g.Key.KeyType != int32(int16(w.KeyType)) {
+			c.violate("C15|cred|keytype", fmt.Sprintf("credential %d key type %d, written %d (16 bits, signed)", i, g.Key.KeyType, int16(w.KeyType)), nil)
 		}
 		if !bytes.Equal(g.Key.KeyValue, w.Key) {
 			c.violate("C15|cred|key", fmt.Sprintf("credential %d key %x, written %x", i, g.Key.KeyValue, w.Key), nil)
@@ -532,9 +541,31 @@ func hasUnknownTag(m *ccache.Cache) bool {
 func (c *ctx) parse() (*credentials.CCache, bool) {
 	cc := new(credentials.CCache)
 	var err error
-	if p, v, w := vh.Guard(func() { err = cc.Unmarshal(append([]byte{}, c.file...)) }); p {
+	in := append([]byte{}, c.file...)
+	if p, v, w := vh.Guard(func() { err = cc.Unmarshal(in) }); p {
 		c.violate(panicFP("unmarshal", w, v), "CCache.Unmarshal panicked on a well-formed file: "+v, nil)
 		return nil, false
+	}
+	if err == nil {
+		// The buffer belongs to the caller, who may read the next file into it: what was parsed must not change when it is
+		// overwritten (encoding.BinaryUnmarshaler: "must copy the data if it wishes to retain the data after returning").
+		if !bytes.Equal(in, c.file) {
+			c.violate("C15|unmarshal|input-modified", "CCache.Unmarshal modified the bytes it was given", nil)
+			return nil, false
+		}
+		before, e1 := json.Marshal(cc)
+		for k := range in {
+			in[k] = 0xA5
+		}
+		after, e2 := json.Marshal(cc)
+		if e1 == nil && e2 == nil && !bytes.Equal(before, after) {
+			c.violate("C15|unmarshal|input-buffer-retained", "the parsed cache changes when the caller overwrites the buffer it had passed to CCache.Unmarshal",
+				map[string]any{"parsed": string(before), "parsed_after_the_buffer_was_overwritten": string(after)})
+			return nil, false
+		}
+		if e1 == nil && e2 == nil {
+			c.r.Inc("files_parsed_input_buffer_overwritten_unchanged")
+		}
 	}
 	if err != nil {
 		if hasUnknownTag(c.m) {
@@ -809,6 +840,24 @@ func clientCase(r *vh.Run, key string, i int) {
 		k := rnd.Intn(j + 1)
 		servers[j], servers[k] = servers[k], servers[j]
 	}
+	// A cache can hold several credentials for one server (MIT's kinit appends without removing, a renewed TGT follows the old
+	// one): a third of the caches repeat one or two of their servers, the TGT among them, with other tickets and keys.
+	dupSPN := map[string]bool{}
+	if len(servers) > 0 && rnd.Intn(3) == 0 {
+		for n := 1 + rnd.Intn(2); n > 0; n-- {
+			d := servers[rnd.Intn(len(servers))]
+			if rnd.Bool() {
+				for _, s := range servers {
+					if len(s.Components) == 2 && s.Components[0] == "krbtgt" && s.Components[1] == realm {
+						d = s
+					}
+				}
+			}
+			dupSPN[strings.Join(d.Components, "/")] = true
+			at := rnd.Intn(len(servers) + 1)
+			servers = append(servers[:at], append([]ccache.Principal{d}, servers[at:]...)...)
+		}
+	}
 	specs := map[int]tktSpec{}
 	withConf := rnd.Bool()
 	for _, s := range servers {
@@ -932,6 +981,30 @@ func clientCase(r *vh.Run, key string, i int) {
 			continue
 		}
 		sp := specs[idx]
+		if held && dupSPN[spn] {
+			// several credentials were written for this server: the client must hold one of them, ticket and key of the same one
+			pair := -1
+			for j, kj := range m.Credentials {
+				if strings.Join(kj.Server.Components, "/") == spn && !ccache.IsConfig(kj.Server) && merr == nil && bytes.Equal(remarshalled, kj.Ticket) {
+					if pair < 0 || (skey.KeyType == int32(int16(kj.KeyType)) && bytes.Equal(skey.KeyValue, kj.Key)) {
+						pair = j
+					}
+				}
+			}
+			switch {
+			case pair < 0:
+				ex["remarshalled"] = hex.EncodeToString(remarshalled)
+				c.violate("C15|client|ticket-bytes", fmt.Sprintf("the ticket held for %q is none of the tickets written for that server (err %v)", spn, merr), ex)
+			case skey.KeyType != int32(int16(m.Credentials[pair].KeyType)) || !bytes.Equal(skey.KeyValue, m.Credentials[pair].Key):
+				ex["ticket_of_credential"] = pair
+				c.violate("C15|client|session-key", fmt.Sprintf("the client holds for %q the ticket of credential %d with a session key (%d,%x) that was written with another credential (its own: %d,%x)",
+					spn, pair, skey.KeyType, skey.KeyValue, int16(m.Credentials[pair].KeyType), m.Credentials[pair].Key), ex)
+			default:
+				r.Inc("client_tickets_equal")
+				r.Inc("client_repeated_server_pair_intact")
+			}
+			continue
+		}
 		if !held {
 			c.violate("C15|client|ticket-missing", fmt.Sprintf("GetCachedTicket(%q) finds nothing although the cache has a currently valid credential for it", spn), ex)
 			continue
@@ -947,7 +1020,7 @@ func clientCase(r *vh.Run, key string, i int) {
 			c.violate("C15|client|ticket-bytes", fmt.Sprintf("the ticket held for %q does not marshal to the ticket bytes written (err %v)", spn, merr), ex)
 			continue
 		}
-		if skey.KeyType != int32(k.KeyType) || !bytes.Equal(skey.KeyValue, k.Key) {
+		if skey.KeyType != int32(int16(k.KeyType)) || !bytes.Equal(skey.KeyValue, k.Key) {
 			c.violate("C15|client|session-key", fmt.Sprintf("session key held for %q is (%d,%x), written (%d,%x)", spn, skey.KeyType, skey.KeyValue, k.KeyType, k.Key), ex)
 			continue
 		}
@@ -1039,6 +1112,14 @@ func (c *ctx) tgtProbe(cl *client.Client, cfg *config.Config, ln net.Listener, r
 		return
 	}
 	ex := map[string]any{"tgs_req": hex.EncodeToString(req)}
+	// with several TGT credentials in the cache the client may present any one of them, with that one's session key
+	for j := range m.Credentials {
+		if kj := &m.Credentials[j]; sameStrings(kj.Server.Components, []string{"krbtgt", realm}) && bytes.Equal(tktRaw, kj.Ticket) {
+			if !bytes.Equal(tktRaw, tgt.Ticket) || et == int64(kj.KeyType) {
+				tgt = kj
+			}
+		}
+	}
 	if !bytes.Equal(tktRaw, tgt.Ticket) {
 		c.violate("C15|client|tgt-ticket", "the TGT the client presents to the KDC is not the ticket bytes written for krbtgt/"+realm, ex)
 		return
